@@ -28,7 +28,7 @@ def make_script(rng, m):
     regs = [satgen.region(rng, m["nodes"]) for _ in range(nr)]
     satnum = [1] * satgen.NC if nr == 1 else [1, 1, 1, 2, 2, 2]
     imbnum = satnum if m["hyst"] != "other" else [2, 2, 2, 1, 1, 1]
-    arrays = satgen.endpoints(rng, regs, satnum) if m["arrays"] else None
+    arrays = satgen.endpoints(rng, regs, satnum, m.get("vertical", False)) if m["arrays"] else None
     fam, other = m["family"], 3 - m["family"]
     decks = {"primary": satgen.deck(regs, fam, m["scaling"], arrays, m["hyst"], satnum, imbnum),
              "other": satgen.deck(regs, other, m["scaling"], arrays, m["hyst"], satnum, imbnum)}
@@ -81,11 +81,12 @@ def run(opts):
     chk.notes["events_by_relation"] = kinds
     chk.rule = ("%d models: every combination TLC enumerates of family I/II x 3-5 interior nodes x 1-2 saturation regions x scaling "
                 "off/two-point/three-point x end-point arrays (SWL, SWCR, SWU, SGL, SGCR, SGU, SOWCR, SOGCR per cell) x Carlson hysteresis "
-                "off / identical curves / other region's curves, each with fresh monotone random tables; all nodes, 2 interior points per "
+                "off / identical curves / other region's curves x vertical scaling (KRW, KRWR, KRO, KRORW, KRG, KRGR per cell, with three-point "
+                "scaling), each with fresh monotone random tables; all nodes, 2 interior points per "
                 "interval, 14 random three-phase saturations per cell and comparison, a drainage-then-imbibition history per cell" % len(scripts))
     chk.sample(scripts[0]["model"])
     chk.assumptions = ["tolerance 2e-6 of the curve's maximum", "three-phase oil relative permeability by the default (ECLIPSE) model; Stone "
-                       "models, Killough hysteresis, capillary-pressure hysteresis, KRW/KRO/KRG/PCW vertical scaling and directional / "
-                       "irreversible scaling are not checked",
+                       "models, Killough hysteresis, capillary-pressure hysteresis, PCW / PCG and KRORG vertical scaling, vertical scaling with "
+                       "two-point scaling or hysteresis, and directional / irreversible scaling are not checked",
                        "METRIC units only"]
     return chk.finish()
